@@ -28,8 +28,12 @@ CLAIMS = {
         text="Theorems: run_rel; row-wise cells of a population do not depend on appended rows; group entries whose id does not occur "
              "among the other rows are unchanged; injective relabelling of ids preserves group values; wthh/bg ids of different "
              "households/families never collide. Tie: A alone vs A+B / B+A / interleaved and random relabelling on the real engine for "
-             "every node of the default graph.",
-        technique="Coq proof (Engine.run_rel, Perm separability lemmas, Groupings) + metamorphic engine runs",
+             "every node of the default graph. End to end on the model (TableSep.run_separable_b): for the concrete Coq engine, the run on "
+             "A ++ B succeeds whenever the runs on A and B do and equals their column-wise concatenation, given disjoint reduction keys, "
+             "overall unique p_ids and foreign keys that stay inside the own table; decidable graph conditions are an obligation per run; "
+             "relabellings incl. the label 0 for pointed-to persons.",
+        technique="Coq proof (TableSep.run_separable_b end-to-end on the model engine; Engine.run_rel, Perm separability lemmas, Groupings) + "
+                  "reflective side conditions on the regenerated graph + metamorphic engine runs",
         design="6/C02"),
     "C03": dict(
         text="Theorem (model of numpy.vectorize with the declared dtype as otypes, for every rule, table and row): the column dtype is the "
